@@ -83,22 +83,29 @@ def handle (line : String) : Out :=
     let r : Option Out := do
       let ins ← section? "in" ins; let coll ← section? "coll" coll; let req ← section? "req" req
       let wd ← section? "wd" wd; let vk ← section? "vk" vk; let bw ← section? "bw" bw
-      -- "+nc1" / "+nc2": a non-canonically encoded body; the model does not see encodings
+      -- "+nc1" / "+nc2": a non-canonically encoded body; "+inv": is_valid = false.  Neither is
+      -- seen by the signature rules (and the property does not exempt such transactions).
       let base := (era.splitOn "+").headD ""
-      let ncOk := match era.splitOn "+" with
-        | [_] => true | [_, v] => v = "nc1" ∨ v = "nc2" | _ => false
+      let mods := (era.splitOn "+").drop 1
+      let inv := mods.contains "inv"
+      let ncs := mods.filter (fun m => m = "nc1" ∨ m = "nc2")
+      let ncOk := mods.all (fun m => m = "nc1" ∨ m = "nc2" ∨ m = "inv") && ncs.length ≤ 1 &&
+        (mods.filter (· = "inv")).length ≤ 1
       if !ncOk then none else
       let hasAlonzo ← (match base with
         | "shelley" | "allegra" | "mary" => some false
         | "alonzo" | "babbage" | "conway" | "dijkstra" => some true
         | _ => none)
       let ins ← ins.mapM parseOwner
-      let coll ← coll.mapM parseOwner
+      -- "=j": the very UTxO input j spends
+      let coll ← coll.mapM (fun tk =>
+        if tk.startsWith "=" then (parseNat? (String.ofList (tk.toList.drop 1))).bind (fun j => ins[j]?) else parseOwner tk)
       let req ← req.mapM parseNat?
       let wd ← wd.mapM parseWd
       let vk ← vk.mapM parseVk
       let bw ← bw.mapM parseBw
       if !hasAlonzo && (!coll.isEmpty || !req.isEmpty) then none else
+      if inv && (!hasAlonzo || base = "dijkstra") then none else
       let required : List H := req.map (fun k => H.kh (VK.k k)) ++ wd.filterMap id
       let t : Tx VK SG H Nat Nat Nat :=
         { txId := 0, inputs := ins, collateral := coll, required := required,
